@@ -13,16 +13,14 @@ def classify(case, kind):
     """Known-finding classes of a failing case.  Only failures of the property itself (kind == 'prop') can be
     known findings, and only in the case kinds / labels where the harness provoked them on purpose:
       - a *strict* routes / alias case (compared on every name, the unguarded property),
-      - a verdict case whose document was written to exercise one of the findings,
-      - a routes case on a model labelled `shadow-root`.
-    A lenient case on a generated model has no class: its failure is a VIOLATION."""
+      - a verdict / CLI case whose document was written to exercise one of the findings.
+    A lenient case on a generated model has no class: its failure is a VIOLATION.  So is a failure on a `shadow-root`
+    model or document (regression cases of the repaired defect "introspection route has implicit root types")."""
     if kind != "prop":
         return set()
     cls = set()
     k = case.get("kind")
     if k == "routes":
-        if case.get("label") == "shadow-root":
-            cls.add("json-root-types-implicit")
         if case.get("strict"):
             if case.get("meta"):
                 cls.add("json-meta-types-are-schema-types")
@@ -40,8 +38,6 @@ def classify(case, kind):
         if not (only_json <= META and only_sdl <= BUILTIN):
             return set()
     elif k in ("verdict", "cli"):
-        if case.get("label") == "shadow-root":
-            cls.add("json-root-types-implicit")
         if case.get("label") == "unused-builtin-variable":
             cls.add("sdl-unreferenced-builtin-scalars")
         if case.get("label") == "meta-type-fragment":
@@ -80,9 +76,9 @@ def run(ctx):
             "(the checker and printer are not re-modelled here: C03/C04/C10 do that); aliases are read off the operation list in Coq",
         ],
         assumptions=[
-            "C15_routes_agree: M has unique type and directive names, none a built-in scalar or introspection name; a schema "
-            "definition does not leave out an operation kind whose default type name is defined (no_shadow_root); roots are "
-            "types of M; compared on the names of vis_of M (not an introspection type, not a built-in scalar the result does not list); "
+            "C15_routes_agree: model_ok M = user directives distinct from one another and from the built-ins; without a schema "
+            "definition the roots are the types named Query/Mutation/Subscription; root names are ordinary names; a schema "
+            "description comes with a schema definition; compared on the names of vis_of M (not an introspection type, not a built-in scalar the result does not list); "
             "modulo positions, default-value text and declaration order",
         ],
     )
